@@ -9,6 +9,8 @@
 #include "common/proto.hpp"
 
 #include <array>
+#include <sys/wait.h>
+#include <unistd.h>
 #include <functional>
 #include <unordered_map>
 
@@ -443,6 +445,21 @@ void dfs(Node &n, int depth, std::vector<int> &path, int lo, int hi, int maxtier
   }
 }
 
+// counters of one forked unit (the driver sums STAT records)
+void print_stats() {
+  printf("STAT\tstates\t%lld\n", n_nodes);
+  printf("STAT\ttransitions\t%lld\n", n_ops);
+  printf("STAT\ttraces_validated_against_impl\t%lld\n", n_nodes);
+  printf("STAT\tevaluations\t%lld\n", n_nodes);
+  printf("STAT\tmember_checks\t%lld\n", n_member);
+  printf("STAT\tcell_load_probes\t%lld\n", n_probes);
+  printf("STAT\tsubtrees_pruned_as_seen\t%lld\n", n_pruned);
+  printf("STAT\tbottom_states\t%lld\n", n_bottom);
+  printf("STAT\twitnesses_left_model\t%lld\n", n_dropped);
+  printf("STAT\tdistinct_nontrivial\t%lld\n", (long long)distinct_states.size());
+  printf("STAT\tviolations_in_unit\t%lld\n", vp::nviol());
+}
+
 } // namespace
 
 int main(int argc, char **argv) {
@@ -503,32 +520,34 @@ int main(int argc, char **argv) {
             if (ALPHA[o2].tier > maxtier) continue;
             if (!vp::mine(unit++)) continue;
             if (vp::past_deadline()) { vp::incomplete(DOMNAME + " " + CFGNAME + " phase " + std::to_string(phase)); cut = true; break; }
-            seen.clear();
-            Node n = initial_node();
-            std::vector<int> path = {o1};
-            vp::set_case("h|" + DOMNAME + "|" + CFGNAME + "|" + path_str(path));
-            if (apply_op(ALPHA[o1], n, path) != ST_OK) continue;
-            mark_untracked(n.r[0]);
-            if (o2 == 0) { // the depth-1 node is checked once
-              n_nodes++;
-              check_reg(n.r[0], path, "");
+            // Each unit runs in a forked child: the domains create fresh (ghost / temporary) variable names for every
+            // symbolic load, and the variable factory never releases them, so a long-lived process grows without bound.
+            fflush(stdout);
+            pid_t pid = fork();
+            if (pid == 0) {
+              seen.clear();
+              Node n = initial_node();
+              std::vector<int> path = {o1};
+              vp::set_case("h|" + DOMNAME + "|" + CFGNAME + "|" + path_str(path));
+              if (apply_op(ALPHA[o1], n, path) == ST_OK) {
+                mark_untracked(n.r[0]);
+                if (o2 == 0) { // the depth-1 node is checked once
+                  n_nodes++;
+                  check_reg(n.r[0], path, "");
+                }
+                if (MAXD >= 2) dfs(n, 1, path, o2, o2 + 1, maxtier);
+              }
+              print_stats();
+              fflush(stdout);
+              _exit(0);
             }
-            if (MAXD >= 2) dfs(n, 1, path, o2, o2 + 1, maxtier);
+            int status = 0;
+            waitpid(pid, &status, 0);
           }
         }
       }
     }
   }
-  vp::stat("states", n_nodes);
-  vp::stat("transitions", n_ops);
-  vp::stat("traces_validated_against_impl", n_nodes);
-  vp::stat("evaluations", n_nodes);
-  vp::stat("member_checks", n_member);
-  vp::stat("cell_load_probes", n_probes);
-  vp::stat("subtrees_pruned_as_seen", n_pruned);
-  vp::stat("bottom_states", n_bottom);
-  vp::stat("witnesses_left_model", n_dropped);
-  vp::stat("distinct_nontrivial", (long long)distinct_states.size());
   vp::finish();
   return 0;
 }
